@@ -195,7 +195,7 @@ fn clone_check<I: Clone>(make: &dyn Fn() -> Option<I>, step: &dyn Fn(&mut I) -> 
 
 fn check_entries(ch: &mut Choices, cx: &mut Ctx) -> R {
     cx.label("entry buffers, trees, clones, caches");
-    let d = gen_fdwarf(ch, &GenOpts { max_units: 3, max_dies: 12, lines: true, bad_refs: 0 });
+    let d = gen_fdwarf(ch, &GenOpts { max_units: 3, max_dies: 12, lines: true, bad_refs: 0, split: false });
     cx.sample_with(|| crate::c12::describe_fdwarf(&d));
     let asm = assemble(&d);
     let mut map: BTreeMap<&'static str, Vec<u8>> = asm.sections.clone();
